@@ -32,9 +32,10 @@ def propagate_viability_from_node(node: AttackGraphNode) -> None:
     for child in node.children:
         original_value = child.is_viable
         if child.type == 'or':
-            child.is_viable = False
+            is_viable = False
             for parent in child.parents:
-                child.is_viable = child.is_viable or parent.is_viable
+                is_viable = is_viable or parent.is_viable
+            child.is_viable = is_viable
         if child.type == 'and':
             child.is_viable = False
 
